@@ -546,6 +546,9 @@ def deterministic():
     P.append(("det-main-not-last", [fmt, ("fn", "main", [], False, [println(call("later", I(1)))], None),
                                     ("fn", "later", ["k"], True, [("R", [("A", V("k"), I(1))])], None)]))
     P.append(("det-import-alias", [("im", "f", "fmt"), ("fn", "main", [], False, [("E", False, sel("f", "Println", S("alias")))], None)]))
+    P.append(("det-var-rhs-import", [fmt, ("fn", "show", ["s"], False, [println(V("s"))], "(s string)"),
+                                      ("fn", "main", [], False, [println(S("start")), ("W", "fmt", sel("fmt", "Sprint", I(5))),
+                                                                 ("E", False, call("show", V("fmt")))], None)]))
     P.append(("det-fmt-still-used", [fmt, ("fn", "main", [], False, [println(sel("fmt", "Sprint", I(1))),
                                                                    ("D", "e", sel("fmt", "Sprintln", I(2))), println(V("e"))], None)]))
     return P
